@@ -184,6 +184,15 @@ def run(ctx):
     c12_model.model_part(ctx)
     ctx.log("M done: %d states" % ctx.coverage.get("states", 0))
     trace_part(ctx)
+    bad = c12_model.binding_part(ctx)
+    ctx.log("binding done: %d scenarios" % ctx.coverage.get("model_scenarios_replayed_on_code", 0))
+    if bad:
+        txt = ("SimCore.tla does not describe what a real simulator did on %d scenario(s) inside the antecedent and quantifier of "
+               "C12 (first: %s)" % (len(bad), json.dumps(bad[0])[:1200]))
+        if ctx.violations:
+            ctx.notes.append(txt)         # the differential checks already report the change; the model is merely out of date
+        else:
+            raise Machinery(txt + " - update the model")
 
 
 def replay(ctx, rp):
